@@ -198,7 +198,7 @@ class EventHandler:
 
         """
         for i, listener in enumerate(self.listeners):
-            if listener.listener_id == 0:
+            if listener.listener_id == listener_id:
                 del self.listeners[i]
                 return
         warnings.warn(f'No listener with listener_id {listener_id:d} found')
